@@ -94,11 +94,13 @@ def coq_build():
 
 
 def vo_fresh(rel_v):
+    """the compiled file exists and make considers it up to date with everything it depends on"""
     v = os.path.join(COQ, rel_v)
     vo = v[:-2] + ".vo"
-    gen = os.path.join(COQ, "theories", "Gen", "Generated.v")
-    return os.path.exists(vo) and os.path.getmtime(vo) >= os.path.getmtime(v) and \
-        os.path.getmtime(vo) >= os.path.getmtime(gen)
+    if not os.path.exists(vo):
+        return False
+    rc, _ = sh("make -q %s" % (rel_v[:-2] + ".vo"), cwd=COQ)
+    return rc == 0
 
 
 def theorems_in(rel_v):
@@ -231,6 +233,7 @@ def run_shards(pid, cases, workdir, preamble_extra=""):
     shown = ""
     with concurrent.futures.ThreadPoolExecutor(max_workers=NSHARDS) as ex:
         results = list(ex.map(run_one, range(len(shards))))
+    log("shard times: " + " ".join("%.0f" % r[3] for r in results) + "  loads: " + " ".join("%.0f" % l for l in loads if l))
     for k, rc, out, dt in results:
         if rc != 0 or "@@RESULT" not in out:
             errors.append("shard %d: coqc rc=%d: %s" % (k, rc, out[-600:]))
@@ -372,6 +375,10 @@ def run_property(pid, tier, seed, replay=None):
             oracle_items.append(it)
         elif it["k"] in ("dist", "info"):
             pass
+        elif it.get("nomodel"):
+            # no executable model instance for this hash (SHAKE): implementation-only, panics still count
+            if impl_panicked(it):
+                oracle_items.append(dict(it, k="oracle", name="no_panic", ok=False))
         else:
             corr_cases.append((idx + 1, it))
     if hb_errors:
